@@ -1377,6 +1377,11 @@ class Exec:
                 bs.append(b)
             txt = bytes(bs).decode('latin1'); mm2 = re.match(r'\s*[-+]?(\d+\.?\d*([eE][-+]?\d+)?|\.\d+([eE][-+]?\d+)?|inf|nan)', txt, re.I)
             val = float(mm2.group(0)) if mm2 else 0.0
+            # errno = ERANGE as glibc sets it: overflow to infinity from finite text, or a non-zero result below the smallest normal number
+            lim = 1.1754943508222875e-38 if name == 'strtof' else 2.2250738585072014e-308
+            huge = 3.4028234663852886e38 if name == 'strtof' else 1.7976931348623157e308
+            if mm2 and not re.search(r'inf|nan', mm2.group(0), re.I) and ((val != 0.0 and abs(val) < lim) or abs(val) > huge or (val == 0.0 and re.search(r'[1-9]', mm2.group(0).split('e')[0].split('E')[0]))):
+                s.store_val(st, s.builtin(st, fr, '__errno_location', [], x, work), I32, 34)
             if len(a) > 1 and isinstance(a[1], Ptr) and a[1].obj != 0: s.store_val(st, a[1], PTR(I8), Ptr(a[0].obj, a[0].off + (mm2.end() if mm2 else 0)))
             if name == 'strtof':
                 val = struct.unpack('<f', struct.pack('<f', val))[0]
